@@ -82,6 +82,11 @@ def programs(t):
     for f in floats:
         lines.append(line(f, 'RNI', 'NEA', 'VIA_CONVERT'))
         lines.append(line(f, 'SI<RNI, -2>', 'NEA', 'VIA_CONVERT'))
+    # the elastic-on-rounding nesting: narrowing (also by >= the source's digits) and conversion to a built-in integer
+    for tag in ['NEA', 'TIE', 'NEG', 'NAT']:
+        for (sd, se, dd, de) in ([(8, -8, 4, 0), (8, -8, 8, -1), (10, -6, 6, -2), (6, -9, 4, 0)] if not t else
+                                 [(8, -8, 4, 0), (8, -8, 8, -1), (8, -8, 6, -7), (10, -6, 6, -2), (6, -9, 4, 0), (12, -4, 10, 0), (7, -7, 2, 1)]):
+            lines.append('prog_er<%s, %d, %d, %d, %d>();' % (tag, sd, se, dd, de))
     # static_number destinations (the property names them): from floating point, from a finer PLAIN scaled_integer, and from a
     # finer static_number whose own rounding tag differs (the destination's mode must decide)
     RT = dict(NEA='nearest', TIE='tie_to_pos_inf', NEG='neg_inf')
